@@ -115,7 +115,7 @@ def _run(F, R, ctx):
            "RcBox::has_unique_ref: %s — Gc::get_mut / make_mut then hand out &mut to a value another thread still holds" % why,
            hu.loc(), sample=True)
     R.inst("C03.b", "has_unique_ref / merged branch: compare_exchange(count 1 -> 0)",
-           bool(hu.call_blocks(r"\{impl SharedPacked\}::compare_exchange$")) and
+           bool(hu.call_blocks(r"\{impl SharedPacked\}::compare_exchange$", wrappers=True)) and
            any("const:1" in a for a in setc) and any("const:0" in a for a in setc),
            "RcBox::has_unique_ref's ownerless branch no longer claims the value with compare_exchange(expected count 1)",
            hu.loc(), sample=True)
